@@ -13,7 +13,13 @@ import (
 )
 
 var c13Universe = []string{"a", "b/c", "d", "e/f/g", "h"}
-var c13Values = [][]byte{nil, {}, []byte("x"), []byte("yz"), {0x00, 0xff}, []byte("sec"), []byte("{}"), {0x80}}
+var c13Values = [][]byte{nil, {}, []byte("x"), []byte("yz"), {0x00, 0xff}, []byte("sec"), []byte("{}"), {0x80},
+	// bytes that begin or end with white space of every kind bytes.TrimSpace knows (ASCII and the
+	// UTF-8 encoded Unicode spaces), white-space-only values, a PEM-like text with a final newline
+	[]byte("k\n"), []byte(" k"), []byte("\tk\t"), []byte("k\r\n"), []byte("\vk\f"), []byte("\n"), []byte(" "), []byte(" \t\r\n"),
+	[]byte("\u00a0k"), []byte("k\u00a0"), []byte("\u2028k\u2029"), []byte("k\u0085"), []byte("\u3000"), []byte("\u1680k\u2003\u202f\u205f"),
+	{0xde, 0xad, 0x0a}, {0x20, 0xbe, 0xef}, {0x09, 0x00, 0x0d}, []byte("-----BEGIN K-----\nq83v\n-----END K-----\n"),
+}
 
 func c13Pick[T any](r *rand.Rand, xs []T) T { return xs[r.IntN(len(xs))] }
 
@@ -526,5 +532,133 @@ func c13GenPartial(r *rand.Rand, emit func(c13Input, []string)) {
 			in := c13DocInput(doc.Bytes(), append([]string{}, names...), r, fmt.Sprintf("valid entries, then a bad one (#%d)", i))
 			emit(in, []string{"doc-partial-then-error"})
 		}
+	}
+}
+
+
+// ---------------------------------------------------------------- slow cache writes (virtual time)
+
+// c13GenSlow: a sequential history in which ONE or two cache writes take 1 s .. 2 min of virtual
+// time (inside one caller's flush, nobody else running), followed at once by further calls that
+// flush again; mostly no Close before the state at rest is examined.
+func c13GenSlow(r *rand.Rand, i int) c13Input {
+	in := c13Input{Kind: "slow", Allow: true, Probe: append([]string{}, c13Universe...), Server: map[string]c13SV{}}
+	perm := r.Perm(len(c13Universe))
+	nd := 1 + r.IntN(2)
+	for k := 0; k < nd; k++ {
+		in.Names = append(in.Names, c13Universe[perm[k]])
+	}
+	var free []string
+	for k := nd; k < len(perm); k++ {
+		free = append(free, c13Universe[perm[k]])
+	}
+	for _, n := range c13Universe {
+		in.Server[n] = c13SV{uint32(1 + r.IntN(3)), c13Pick(r, c13Values[2:])}
+	}
+	if r.IntN(3) == 0 {
+		in.Cache = c13ValidDoc(r, in.Names[:1], false).Bytes()
+	}
+	secs := []int64{1, 5, 30, 120}[i%4]
+	bump := func() c13Op {
+		n := c13Pick(r, in.Names)
+		sv := in.Server[n]
+		sv.Ver += 1 + uint32(len(in.Ops)) // strictly newer each time
+		in.Server[n] = c13SV{sv.Ver, sv.Val}
+		return c13Op{Op: "set", Name: n, Ver: sv.Ver, Val: c13Pick(r, c13Values[2:])}
+	}
+	flusher := func(k int) []c13Op { // a call that writes the cache
+		if r.IntN(2) == 0 && k < len(free) {
+			return []c13Op{{Op: "lookup", Name: free[k]}}
+		}
+		return []c13Op{bump(), {Op: "poll"}}
+	}
+	if r.IntN(2) == 0 {
+		in.Ops = append(in.Ops, flusher(2)...)
+	}
+	slow := flusher(0)
+	slow[len(slow)-1].SlowSecs = secs
+	in.Ops = append(in.Ops, slow...)
+	in.Ops = append(in.Ops, flusher(1)...) // right after the slow caller has returned
+	if r.IntN(2) == 0 {
+		in.Ops = append(in.Ops, c13Op{Op: "read", Name: in.Names[0]})
+	}
+	if r.IntN(3) == 0 {
+		second := flusher(3)
+		second[len(second)-1].SlowSecs = []int64{5, 120}[r.IntN(2)]
+		in.Ops = append(in.Ops, second...)
+		in.Ops = append(in.Ops, bump(), c13Op{Op: "poll"})
+	}
+	if r.IntN(4) == 0 {
+		in.Ops = append(in.Ops, c13Op{Op: "close"})
+	}
+	return in
+}
+
+// ---------------------------------------------------------------- hand-written secrets files
+
+var c13Texts = []string{"", "x", "plain text", " lead", "trail ", "nl\n", "\ttab\t", " ", "\n", "\r\n", "\u00a0nb", "sep\u2028", "\u3000", "a\u0000b", "é", "{}"}
+
+// c13GenFcFiles: files in the format documented for NewFileClient: "Value" (base64) and/or
+// "TextValue" (plain text) with a version; texts and bytes with and without outer white space.
+// The unchanged code serves a TextValue exactly as written (no trimming), prefers a non-empty
+// TextValue over Value, and skips version 0 and entries without any value.
+func c13GenFcFiles(r *rand.Rand, n int, emit func(c13Input, []string)) {
+	jstr := func(t string) *c13J { return &c13J{K: 's', S: []byte(t)} }
+	for i := 0; i < n; i++ {
+		doc := c13Obj()
+		var probe []string
+		tags := map[string]bool{}
+		for k, name := range c13Universe {
+			if r.IntN(5) == 0 {
+				continue
+			}
+			probe = append(probe, name)
+			sec := c13Obj()
+			ver := fmt.Sprint(r.IntN(4)) // 0 = skipped
+			form := (i + k) % 6
+			val := c13Pick(r, c13Values)
+			txt := c13Pick(r, c13Texts)
+			switch form {
+			case 0: // text only
+				sec.O = append(sec.O, c13KV{[]byte("TextValue"), jstr(txt)})
+				tags["fc-text"] = true
+			case 1: // bytes only
+				sec.O = append(sec.O, c13KV{[]byte("Value"), c13Str([]byte(base64.StdEncoding.EncodeToString(val)))})
+				tags["fc-value"] = true
+			case 2: // both: a non-empty text wins
+				sec.O = append(sec.O, c13KV{[]byte("Value"), c13Str([]byte(base64.StdEncoding.EncodeToString(val)))}, c13KV{[]byte("TextValue"), jstr(txt)})
+				tags["fc-both"] = true
+			case 3: // text null / empty next to bytes
+				sec.O = append(sec.O, c13KV{[]byte("TextValue"), c13Pick(r, []*c13J{c13Null(), jstr("")})}, c13KV{[]byte("Value"), c13Str([]byte(base64.StdEncoding.EncodeToString(val)))})
+				tags["fc-text-empty"] = true
+			case 4: // key in another case
+				sec.O = append(sec.O, c13KV{c13CaseVariant(r, []byte("TextValue")), jstr(txt)})
+				tags["fc-text-case"] = true
+			default: // as a cache entry would look, with a lastAccess the file client ignores
+				sec.O = append(sec.O, c13KV{[]byte("Value"), c13Str([]byte(base64.StdEncoding.EncodeToString(val)))})
+				tags["fc-cache-shaped"] = true
+			}
+			sec.O = append(sec.O, c13KV{[]byte("Version"), c13Num(ver)})
+			ent := c13Obj(c13KV{[]byte("secret"), sec})
+			if form == 5 {
+				ent.O = append(ent.O, c13KV{[]byte("lastAccess"), jstr("17")})
+			}
+			doc.O = append(doc.O, c13KV{[]byte(name), ent})
+		}
+		if i%9 == 8 { // a wrong-typed TextValue: the whole file is refused
+			doc.O = append(doc.O, c13KV{[]byte("zz"), c13Obj(c13KV{[]byte("secret"), c13Obj(c13KV{[]byte("TextValue"), c13Num("7")}, c13KV{[]byte("Version"), c13Num("1")})})})
+			tags["fc-text-wrong-type"] = true
+		}
+		if i%11 == 10 {
+			doc.O = append(doc.O, c13KV{[]byte("nul"), c13Null()}, c13KV{[]byte(""), c13Obj(c13KV{[]byte("secret"), c13Obj(c13KV{[]byte("TextValue"), jstr("t")}, c13KV{[]byte("Version"), c13Num("1")})})})
+			probe = append(probe, "nul", "")
+		}
+		probe = append(probe, "absent")
+		var tl []string
+		for t := range tags {
+			tl = append(tl, t)
+		}
+		sort.Strings(tl)
+		emit(c13Input{Kind: "fcfile", Cache: doc.Bytes(), Probe: probe}, tl)
 	}
 }
